@@ -75,7 +75,7 @@ Definition opt_eqb {A} (eq : A -> A -> bool) (a b : option A) : bool :=
 Fixpoint list_eqb {A} (eq : A -> A -> bool) (a b : list A) : bool :=
   match a, b with [], [] => true | x :: r, y :: r' => eq x y && list_eqb eq r r' | _, _ => false end.
 Definition tkey_eqb (a b : tkey) : bool :=
-  match a, b with TKey k, TKey k' => N.eqb k k' | TNested a1 a2, TNested b1 b2 => N.eqb a1 b1 && N.eqb a2 b2 | _, _ => false end.
+  match a, b with TPath p, TPath q => list_eqb N.eqb p q end.
 Definition mtag_eqb (a b : mtag) : bool := opt_eqb tkey_eqb (fst a) (fst b) && String.eqb (snd a) (snd b).
 Definition stag_eqb (a b : stag) : bool :=
   opt_eqb (fun p q : N * N => N.eqb (fst p) (fst q) && N.eqb (snd p) (snd q)) (fst a) (fst b) && String.eqb (snd a) (snd b).
